@@ -133,6 +133,9 @@ func c03RenderUnits(h *c05Hier, tags []string) []byte {
 var c03OddValues = []interface{}{0, -1, 1, 1.5, 1e9, int64(9223372036854775807), 1e30, -1e30, "", "x", "*", "[", "(", "\\", "\x00", "\n", "ab", "§§", nil, true, false,
 	[]interface{}{}, map[string]interface{}{}, []interface{}{1, "a"}, strings.Repeat("long", 500)}
 
+var c03BoundaryInts = []interface{}{int64(9223372036854775807), int64(9223372036854775806), int64(9223372036854775800), int64(4611686018427387904), int64(4294967296),
+	int64(2147483648), int64(2147483647), int64(65536), int64(4096), 0, 1, 2, 3, -1, int64(-9223372036854775808)}
+
 var c03OddXPaths = []string{"a>1", "n > 5", ".[n > 5]", "/", "//", "..", "a[", "a | b", "1 div 0", "sum(*)>1", "name(", "@", "a[position()=1e99]", "string-length(a) > number(b)",
 	"*[. < 3]", "count(a) div count(b)", "a/b/c/d/e/f/g", ".[matches(id, '(')]", ".[id='r1' or n>='x']", "concat(a)", "substring(a,1e10)", "//*[.//*[.//*]]", "'lit'", "3", "a=b", "not(a) = b", "-a"}
 
@@ -189,7 +192,27 @@ func mutateJSON(r *core.Rand, v interface{}, tmplNames []string) (interface{}, s
 			s.parent.([]interface{})[s.idx] = x
 		}
 	}
-	switch op := r.Intn(12); {
+	switch op := r.Intn(14); {
+	case op >= 12:
+		// a bound, position, count or index pushed to the edge of its integer range (schema-valid: the json schemas only give minimums)
+		var nums []slot
+		for _, sl := range slots {
+			var cur interface{}
+			if m, ok := sl.parent.(map[string]interface{}); ok {
+				cur = m[sl.key]
+			} else {
+				cur = sl.parent.([]interface{})[sl.idx]
+			}
+			if _, isNum := cur.(float64); isNum {
+				nums = append(nums, sl)
+			}
+		}
+		if len(nums) == 0 {
+			return v, "none"
+		}
+		s = nums[r.Intn(len(nums))]
+		set(c03BoundaryInts[r.Intn(len(c03BoundaryInts))])
+		return v, "boundary-number"
 	case op == 0:
 		if m, ok := s.parent.(map[string]interface{}); ok {
 			delete(m, s.key)
@@ -301,6 +324,10 @@ var c03Adversarial = []string{
 	// huge numbers
 	`{"parser_settings":{"version":"omni.2.1","file_format_type":"fixedlength2"},"file_declaration":{"envelopes":[{"rows":9223372036854775807,"columns":[{"name":"a","start_pos":9223372036854775807,"length":9223372036854775807}]}]},"transform_declarations":{"FINAL_OUTPUT":{"object":{"a":{"xpath":"a"}}}}}`,
 	`{"parser_settings":{"version":"omni.2.1","file_format_type":"fixedlength2"},"file_declaration":{"envelopes":[{"columns":[{"name":"a","start_pos":2,"length":9223372036854775807,"line_index":9223372036854775807}]}]},"transform_declarations":{"FINAL_OUTPUT":{"object":{"a":{"xpath":"a"}}}}}`,
+	`{"parser_settings":{"version":"omni.2.1","file_format_type":"fixedlength2"},"file_declaration":{"envelopes":[{"columns":[{"name":"a","start_pos":2,"length":9223372036854775807},{"name":"b","start_pos":3,"length":9223372036854775806},{"name":"c","start_pos":9223372036854775807,"length":1}]}]},"transform_declarations":{"FINAL_OUTPUT":{"object":{"a":{"xpath":"a"},"b":{"xpath":"b"},"c":{"xpath":"c"}}}}}`,
+	`{"parser_settings":{"version":"omni.2.1","file_format_type":"fixed-length"},"file_declaration":{"envelopes":[{"columns":[{"name":"a","start_pos":2,"length":9223372036854775807},{"name":"b","start_pos":9223372036854775807,"length":9223372036854775807}]}]},"transform_declarations":{"FINAL_OUTPUT":{"object":{"a":{"xpath":"a"},"b":{"xpath":"b"}}}}}`,
+	`{"parser_settings":{"version":"omni.2.1","file_format_type":"csv2"},"file_declaration":{"delimiter":",","records":[{"columns":[{"name":"a","index":9223372036854775807},{"name":"b","index":2}]}]},"transform_declarations":{"FINAL_OUTPUT":{"object":{"a":{"xpath":"a"},"b":{"xpath":"b"}}}}}`,
+	`{"parser_settings":{"version":"omni.2.1","file_format_type":"edi"},"file_declaration":{"segment_delimiter":"~","element_delimiter":"*","component_delimiter":":","segment_declarations":[{"name":"A","is_target":true,"max":-1,"min":0,"elements":[{"name":"e","index":9223372036854775807,"empty_if_missing":true},{"name":"f","index":1,"component_index":9223372036854775807,"empty_if_missing":true}]}]},"transform_declarations":{"FINAL_OUTPUT":{"object":{"e":{"xpath":"e"},"f":{"xpath":"f"}}}}}`,
 	`{"parser_settings":{"version":"omni.2.1","file_format_type":"fixed-length"},"file_declaration":{"envelopes":[{"by_rows":1000000000,"columns":[{"name":"a","start_pos":1,"length":1e18}]}]},"transform_declarations":{"FINAL_OUTPUT":{"object":{"a":{"xpath":"a"}}}}}`,
 	`{"parser_settings":{"version":"omni.2.1","file_format_type":"csv"},"file_declaration":{"delimiter":",","data_row_index":9223372036854775807,"header_row_index":1,"columns":[{"name":"a"}]},"transform_declarations":{"FINAL_OUTPUT":{"object":{"a":{"xpath":"a"}}}}}`,
 	`{"parser_settings":{"version":"omni.2.1","file_format_type":"csv2"},"file_declaration":{"delimiter":",","records":[{"rows":1e9,"columns":[{"name":"a","index":9223372036854775807,"line_index":1e9}]}]},"transform_declarations":{"FINAL_OUTPUT":{"object":{"a":{"xpath":"a"}}}}}`,
